@@ -441,10 +441,16 @@ func Ite(c, a, b *Term) *Term {
 // ---------------------------------------------------------------------------
 // Equality
 
+// DistinctHook lets the client decide disequality of terms it knows more about.
+var DistinctHook func(a, b *Term) bool
+
 // Distinct reports whether a and b are syntactically provably different.
 func Distinct(a, b *Term) bool {
 	if a == b {
 		return false
+	}
+	if DistinctHook != nil && a.Op == "ctor" && b.Op == "ctor" && DistinctHook(a, b) {
+		return true
 	}
 	if a.Op == "const" && b.Op == "const" {
 		return a.Val != b.Val
@@ -1353,4 +1359,58 @@ func SortedKeys[V any](m map[string]V) []string {
 	}
 	sort.Strings(ks)
 	return ks
+}
+
+var quantCache = map[int]bool{}
+
+// HasQuant reports whether t contains a quantifier.
+func HasQuant(t *Term) bool {
+	if v, ok := quantCache[t.ID]; ok {
+		return v
+	}
+	r := t.Op == "forall"
+	if !r {
+		for _, a := range t.Args {
+			if HasQuant(a) {
+				r = true
+				break
+			}
+		}
+	}
+	quantCache[t.ID] = r
+	return r
+}
+
+// Short renders at most n characters of t (safe on huge DAGs).
+func (t *Term) Short(n int) string {
+	var b strings.Builder
+	var rec func(t *Term) bool
+	rec = func(t *Term) bool {
+		if b.Len() > n {
+			return false
+		}
+		if len(t.Args) == 0 || t.Op == "const" {
+			writeTerm(&b, t, nil)
+			return true
+		}
+		name := t.Op
+		if t.Name != "" {
+			name = t.Name
+		}
+		b.WriteString("(" + name)
+		for _, a := range t.Args {
+			b.WriteByte(' ')
+			if !rec(a) {
+				return false
+			}
+		}
+		b.WriteString(")")
+		return true
+	}
+	rec(t)
+	s := b.String()
+	if len(s) > n {
+		s = s[:n] + "..."
+	}
+	return s
 }
